@@ -6,9 +6,17 @@ import vlib
 def run(tier, seed, replay=None):
     ck = vlib.Check("C05", tier, seed, "model_checking")
     binary = vlib.build_harness()
-    c = dict(Ids='{"P","S","X"}', Signers='{"P","S"}', MaxEps=1 if tier == "quick" else 2, FIXED=True, EXPORT=True, SLIM=False)
+    c = dict(Ids='{"P","S","X"}', Signers='{"P","S"}', MaxEps=1, FIXED=True, EXPORT=True, SLIM=False)
     r = vlib.tlc("AdSignature", ("c05.cfg", vlib.cfg_text(c, ["Agree", "ReturnsSigner", "ExportCase"])), timeout=3000, tag="c05")
     ck.add_tlc("AdSignature", r, "every ad shape x signer x key assignment x single mutation: Verify(Mutate(Sign)) = declarative outcome")
+    if tier != "quick":
+        # every ad shape with lists of up to two extended providers (the signer is not among them: the lists of two and three that
+        # include it are in the pairs configuration below)
+        rf = vlib.tlc("AdSignature", ("c05f.cfg", vlib.cfg_text(dict(c, Ids='{"P","X"}', MaxEps=2), ["Agree", "ReturnsSigner", "ExportCase"])), timeout=3000, tag="c05f")
+        ck.add_tlc("AdSignature/lists-of-two", rf, "every ad shape with 0..2 extended providers over provider and one other identity")
+        with open(os.path.join(r.workdir, "c05_cases.ndjson"), "a") as f:
+            f.write(open(os.path.join(rf.workdir, "c05_cases.ndjson")).read())
+        shutil.rmtree(rf.workdir, ignore_errors=True)
     # lists of two (quick) / three (thorough) extended providers on one fixed advertisement body: the main provider next to others
     r2 = vlib.tlc("AdSignature", ("c05s.cfg", vlib.cfg_text(dict(c, SLIM=True, MaxEps=2 if tier == "quick" else 3), ["Agree", "ReturnsSigner", "ExportCase"])),
                   timeout=3000, tag="c05s")
